@@ -469,6 +469,8 @@ pub fn generate(tier: &str, rng: &mut Rng) -> (Vec<String>, bool) {
         }
     }
     out.retain(|l| valid_case(&Req::parse(l)));
+    // the same requests at tiny scales (2^-40 .. 2^-60): non-zero values far below any epsilon
+    crate::cases::add_scaled(&mut out, 7, &[40, 50, 60], &["xs"]);
     (out, true)
 }
 
